@@ -317,3 +317,44 @@ def path_length_inside(ring, path):
         if frac:
             total += float(frac) * math.hypot(b[0] - a[0], b[1] - a[1])
     return total
+
+
+def path_runs_exactly_along(ring, path):
+    """True when some leg of the path overlaps some edge of the ring over a positive length in
+    exact rational arithmetic on the float coordinates (collinear, not merely close)."""
+    from fractions import Fraction as F
+
+    def fr(p):
+        return (F(p[0]), F(p[1]))
+    n = len(ring)
+    for p, q in zip(path, path[1:]):
+        p, q = fr(p), fr(q)
+        for k in range(n):
+            a, b = fr(ring[k]), fr(ring[(k + 1) % n])
+            dx, dy = b[0] - a[0], b[1] - a[1]
+            if dx == 0 and dy == 0:
+                continue
+            if dx * (p[1] - a[1]) - dy * (p[0] - a[0]) != 0 or dx * (q[1] - a[1]) - dy * (q[0] - a[0]) != 0:
+                continue
+            # parameters of p and q along a -> b
+            den = dx * dx + dy * dy
+            tp = ((p[0] - a[0]) * dx + (p[1] - a[1]) * dy) / den
+            tq = ((q[0] - a[0]) * dx + (q[1] - a[1]) * dy) / den
+            lo, hi = max(min(tp, tq), 0), min(max(tp, tq), 1)
+            if hi > lo:
+                return True
+    return False
+
+
+def path_length_band(ring, path, delta):
+    """(lo, hi): length of the path inside the ring shrunk / grown by delta (GEOS, float): the
+    band within which any answer is defensible when the path hugs an edge only up to rounding."""
+    import shapely
+    from shapely.geometry import LineString, Polygon
+    poly = Polygon(ring)
+    line = LineString(path)
+    inner = poly.buffer(-delta)
+    outer = poly.buffer(delta)
+    lo = 0.0 if inner.is_empty else inner.intersection(line).length
+    hi = outer.intersection(line).length
+    return lo, hi
